@@ -7,3 +7,8 @@ func VerifNext(expr string, pos int) (Token, int, error) {
 	err := l.Next(&t)
 	return t, l.position, err
 }
+
+// VerifErrors returns one value of every error this package can return.
+func VerifErrors(r rune) []error {
+	return []error{errInvalidRune, errUnexpectedEndOfExpression, &unexpectedRuneError{r}}
+}
